@@ -15,6 +15,7 @@ func init() {
 		Technique: "static analysis: dominance guards + who-may-write on go/ssa (retry ranking argument), constant/value-flow of the dry flag, call-graph reachability",
 		Decided: []string{
 			"launch is gated on status==not-started, flipped to running by the loop first, and unique (C01.gate, C01.flip-first, C01.single-launch shared)",
+			"the gate's readiness verdict (\"runnable\") stays true across a dependency only in the licensed cells and is a sticky conjunction over all dependencies, so a step behind an unsatisfied dependency is never launched (C01.ready-table, C01.ready-all-deps shared)",
 			"the relaunch licence (store of not-started) is dominated by RetryPolicy!=nil and retryCount < Limit (normalised) (C03.retry-guard)",
 			"exactly one increment of RetryCount precedes the reset on that path; RetryCount has no other writer than that increment and whole-state resets (C03.retry-count, C03.count-writers)",
 			"not-started is written only by the worker's retry path and the retry-graph reset (C03.none-writers); after handing the node back the worker stores no further status (C03.no-status-after-handback)",
@@ -38,6 +39,7 @@ func runC03(e *Env) {
 		return
 	}
 	c01Gate(e, s)
+	c01ReadyTable(e, s, true)
 	c01FlipFirst(e, s)
 	c01SingleLaunch(e, s)
 	c03Retry(e, s)
@@ -128,7 +130,29 @@ func c03Retry(e *Env, s *Sched) {
 	r.Check(nInc == 1, "worker: exactly one RetryCount increment", e.InstrPos(resets[0].Site),
 		sprintf("found %d increments of RetryCount in the worker; each relaunch must increase the count exactly once (ranking argument for ≤ limit retries)", nInc))
 
-	r.Rule("C03.no-status-after-handback", "MPT", "no status store reachable after the reset to None", 1)
+	c03Handback(e, s, "C03.no-status-after-handback", true)
+}
+
+// c03Handback: once the worker has stored not-started (the hand-back of a retried
+// node to the scheduling loop) it writes no further status of that node on its way
+// out, and (reentry) does not execute the step again. The first half is shared with
+// C01: a stale worker that still labels the node finished lets dependents start
+// while the relaunched attempt runs.
+func c03Handback(e *Env, s *Sched, rule string, reentry bool) {
+	r := e.R
+	r.Rule(rule, "MPT", "no status store reachable after the reset to None", 1)
+	none := s.val("NodeStatusNone")
+	var resets []ir.StoreEvent
+	evs := s.events(s.WorkerFns)
+	for _, ev := range evs {
+		if k, ok := s.constOf(ev); ok && k == none && sameNode(ev.Root, s.WorkerNode) {
+			resets = append(resets, ev)
+		}
+	}
+	if len(resets) == 0 {
+		r.Unknown("worker: retry reset site", e.Pos(s.Worker.Pos()), "no store of NodeStatusNone found in the worker")
+		return
+	}
 	doneNil := func(from *ssa.BasicBlock, idx int) bool { return doneNilEdge(e, from, idx) }
 	backEdge := func(from *ssa.BasicBlock, idx int) bool { return from.Succs[idx].Dominates(from) }
 	isStatusStore := func(in ssa.Instruction) bool {
@@ -239,6 +263,9 @@ func c03Retry(e *Env, s *Sched) {
 		}
 		r.Check(bad == nil, "worker: after status:=None the way out of the worker stores no status", e.InstrPos(rs.Site),
 			"after handing the node back to the scheduling loop (status not-started) the old worker still writes its status on its way out: a relaunched attempt can be relabelled finished/failed by the previous attempt's goroutine", facts...)
+		if !reentry {
+			continue
+		}
 		// (b) the exec loop is not re-entered after the hand-back
 		bad2 := onward(rs.Site, ir.PathQuery{SkipEdge: doneNil, Descend: descend, Bad: isExec})
 		facts = nil
